@@ -204,6 +204,10 @@ const c11OpYieldBudget = 6_000_000
 func execOp(c *opCtx, op *C11Op) (result string) {
 	verifsim.BeginOp(verifsim.OrderCfg{Seed: gen.Mix(gen.Mix(c.runSeed, uint64(c.task)+77), uint64(c.k)), Weights: c.weights})
 	defer verifsim.EndOp()
+	// simulated clock and randomness: one stream per (task, operation), the
+	// same in the solo and in the concurrent execution
+	cs := gen.Mix(gen.Mix(c.runSeed, uint64(c.task)+177), uint64(c.k))
+	verifsim.BeginClock(verifsim.ClockCfg{Seed: cs, Mode: int32(cs>>7) & 3})
 	var b strings.Builder
 	verifsim.ArmOpBudget(c11OpYieldBudget)
 	defer func() {
